@@ -42,7 +42,7 @@ type v4model struct {
 func v4configs(thorough bool) []v4model {
 	if thorough {
 		return []v4model{
-			{v4cfg{name: "k3 direct+relay+hlen", clients: 3, hlen: true, relay: true}, 6, 3, 6 * time.Minute},
+			{v4cfg{name: "k3 direct+relay+hlen", clients: 3, hlen: true, relay: true}, 6, 3, 5 * time.Minute},
 			{v4cfg{name: "k2 direct+relay+hlen", clients: 2, hlen: true, relay: true}, 6, 0, 3 * time.Minute},
 		}
 	}
@@ -562,28 +562,32 @@ func (s *v4sys) Check() []explore.Viol {
 	if len(s.viols) > 0 {
 		return s.viols
 	}
-	if len(got) != expect {
-		var missing []string
-		for _, u := range v4Usable {
-			if _, r := reserved[u]; !r && !got[u] {
-				missing = append(missing, u)
-			}
+	// Only a SHORTFALL is a violation: an address the oracle counts as reserved merely because an
+	// expired lease entry awaits the next cleanup tick may legitimately be obtainable already;
+	// obtaining an address that is really held (unexpired lease, live offer, acknowledged binding,
+	// declined) is caught by the O1/O5 monitors on the probe's own ACKs.
+	var missing []string
+	for _, u := range v4Usable {
+		if _, r := reserved[u]; !r && !got[u] {
+			missing = append(missing, u)
 		}
+	}
+	if len(missing) > 0 {
 		// root cause evidence: is each missing address pinned in the pool's MAC->IP table by a
 		// client that holds no lease (an allocation that nothing will ever reclaim)?
 		ps := s.d.Pool.VerifState()
-		leased := map[string]bool{}
+		leasedIP := map[string]string{}
 		for _, l := range s.d.Leases() {
-			leased[l.Key] = true
+			leasedIP[l.Key] = ip4s(l.IP)
 		}
 		orphans := 0
 		var why []string
 		for _, x := range missing {
 			pinned := false
 			for mac, ip := range ps.Allocated {
-				if cv := s.view[s.who(mac)]; ip == x && !leased[mac] && cv != nil && cv.pinned[x] {
+				if cv := s.view[s.who(mac)]; ip == x && leasedIP[mac] != x && cv != nil && cv.pinned[x] {
 					pinned = true
-					why = append(why, fmt.Sprintf("%s pinned by pool entry of %s (no lease; its latest OFFER was never requested)", x, s.who(mac)))
+					why = append(why, fmt.Sprintf("%s pinned by pool entry of %s (no lease on it; its OFFER of %s was never requested)", x, s.who(mac), x))
 				} else if ip == x {
 					why = append(why, fmt.Sprintf("%s still in the pool's MAC table for %s", x, s.who(mac)))
 				}
